@@ -2,6 +2,7 @@ CONSTANT Families = {"eval", "order", "rep", "full", "opt"}
 CONSTANT BkMax = 4
 CONSTANT Nords = {1, 2, 3, 4, 5, 6}
 CONSTANT SpreadSel = "none"
+CONSTANT RepLen = 4
 CONSTANT OrderLen = 3
 CONSTANT FullNords = {2, 3}
 CONSTANT FullExtra = {0, 1}
